@@ -188,7 +188,7 @@ pub fn run(cfg: &Cfg) -> i32 {
         // planted pattern: en-passant capture landing next to the enemy king (mates, stalemates
         // and plain checks through the capture are otherwise almost never generated)
         let tape = proptest::collection::vec(proptest::prelude::any::<u16>(), 64);
-        engine::pbt(ctx, seedf(3), cfg.per_shard(160_000, 1_600_000), &tape, |ctx, tp: &Vec<u16>| {
+        engine::pbt(ctx, seedf(3), cfg.per_shard(320_000, 4_000_000), &tape, |ctx, tp: &Vec<u16>| {
             match crate::gen::plant_ep_near_king(&mut crate::gen::Tape::new(tp)) {
                 Some(p) => {
                     ctx.class("start:planted-en-passant-next-to-king");
@@ -201,7 +201,7 @@ pub fn run(cfg: &Cfg) -> i32 {
             }
         })?;
         let pol = [Policy::Endgame, Policy::Special, Policy::Uniform];
-        common::histories(ctx, seedf(1), cfg.per_shard(20_000, 400_000), 10, 120, Some(&pol), &check_step)?;
+        common::histories(ctx, seedf(1), cfg.per_shard(40_000, 600_000), 10, 120, Some(&pol), &check_step)?;
         Ok(())
     });
     let exhaustive4 = cfg.tier == engine::Tier::Thorough;
